@@ -127,8 +127,9 @@ def compare(I, M, ignore_set_lines=False):
                 break
     if I["n"] != M["n"]:
         diffs.append("non-default count impl %s / model %s" % (I["n"], M["n"]))
-    di = [(l, k, o.lower() if k in ("few-args",) else o) for l, k, o in I["diags"]]
-    dm = M["diags"]
+    nm = lambda o: "-" if o in ("", "-") else o          # an empty option name is printed as '' by the binary and as '-' by the driver
+    di = [(l, k, nm(o.lower() if k in ("few-args",) else o)) for l, k, o in I["diags"]]
+    dm = [(l, k, nm(o)) for l, k, o in M["diags"]]
     if ignore_set_lines:
         di = [(0 if (l, k, o) not in dm else l, k, o) for l, k, o in di]
     if [(k, o) for _, k, o in di] != [(k, o) for _, k, o in dm] or (not ignore_set_lines and [l for l, _, _ in di] != [l for l, _, _ in dm]):
